@@ -259,7 +259,8 @@ CFG = {
     "AUTO_NORANGE": ["iter", "as_str", "FromStr"],
 }
 
-SPECIAL_NAMES = ["Ångström-µs-ÄÖÜ-ßß", "", "two words", "q\"uote", "back\\slash", "{}", "{0}", "naïve-ü", "日本", "tab\there", "A", "\\n", "'", "}}{{"]
+SPECIAL_NAMES = ["Ångström-µs-ÄÖÜ-ßß", "", "r#type", "two words", "q\"uote", "back\\slash", "{}", "{0}", "naïve-ü", "日本", "tab\there", "A", "\\n", "'", "}}{{",
+                 " lead", "trail ", "r#", "#[x]", "__NAME", "Self", "a\0b", "x" * 300, "\ufeffbom", "/* c */", "// c", "0", "-1"]
 
 
 def patterns(repr_):
@@ -503,9 +504,12 @@ def c11_specs(tier="quick", seed=1):
         out.append(EnumSpec("e_%s_limits2" % r, r, vs, list(CFG["ALL_AUTO"]), tags={"C11", "limits"}))
         # 4. foreign attributes and doc comments
         vs = [Variant("A", 1, "1", attrs=("/// first", "#[allow(dead_code)]")), Variant("B", 2, None, rename="bee", attrs=("#[doc = \"second\"]",)),
-              Variant("C", 9, "9", attrs=("#[cfg_attr(all(), allow(unused))]", "/** block doc */"))]
+              Variant("C", 9, "9", attrs=("#[cfg_attr(all(), allow(unused))]", "/** block doc */")),
+              Variant("D", 10, None, attrs=("#[allow(dead_code, non_camel_case_types)]", "#[deprecated(since = \"0.1\", note = \"x, y\")]")),
+              Variant("E", 11, None, attrs=("#[cfg_attr(all(), allow(unused, dead_code), doc = \"z\")]", "#[doc(alias = \"e\", alias = \"ee\")]"))]
         out.append(EnumSpec("e_%s_attrs" % r, r, vs, list(CFG["ALL_TABLE"]), tags={"C11", "attrs"},
-                            enum_attrs=("/// An enum with foreign attributes", "#[allow(clippy::all)]", "#[cfg_attr(all(), allow(dead_code))]", "#[doc(hidden)]")))
+                            enum_attrs=("/// An enum with foreign attributes", "#[allow(clippy::all)]", "#[cfg_attr(all(), allow(dead_code))]", "#[doc(hidden)]",
+                                        "#[allow(deprecated, dead_code, non_camel_case_types)]", "#[doc(alias = \"x\", alias = \"y\")]")))
     # 5. sizes
     out.append(EnumSpec("e_u16_n300", "u16", [Variant("V%d" % i, i, None) for i in range(300)], list(CFG["ALL_AUTO"]), tags={"C11", "size"}))
     out.append(EnumSpec("e_i16_n400h", "i16", [Variant("V%d" % i, -200 + i + (i // 9), str(-200 + i + (i // 9)) if i % 9 == 0 else None) for i in range(400)],
